@@ -198,16 +198,16 @@ async fn server_events(seed: u64, n: usize, trace: &mut dyn io::Write) {
         let mut catalog = Catalog::new();
         catalog.upsert(LowerName::new(&origin), vec![Arc::new(handler)]);
         let catalog = Arc::new(catalog);
-        for (proto, adv) in [
-            (Protocol::Udp, -1i64),
-            (Protocol::Udp, 0),
-            (Protocol::Udp, 512),
-            (Protocol::Udp, 1232),
-            (Protocol::Udp, 4096),
-            (Protocol::Udp, 65535),
-            (Protocol::Tcp, -1),
-            (Protocol::Tcp, 1232),
-        ] {
+        let mut combos: Vec<(Protocol, i64, bool)> = Vec::new();
+        for adv in [-1i64, 0, 512, 513, 800, 1219, 1220, 1232, 4096, 65535] {
+            combos.push((Protocol::Udp, adv, false));
+            if adv >= 0 {
+                combos.push((Protocol::Udp, adv, true)); // DO bit set
+            }
+        }
+        combos.push((Protocol::Tcp, -1, false));
+        combos.push((Protocol::Tcp, 1232, true));
+        for (proto, adv, dnssec_ok) in combos {
             let mut q = Message::query();
             q.metadata.id = rng.random();
             q.add_query(Query::new(big.clone(), if txt { RecordType::TXT } else { RecordType::A }));
@@ -217,6 +217,7 @@ async fn server_events(seed: u64, n: usize, trace: &mut dyn io::Write) {
                 // what the client advertised, so read it back from the built request
                 let mut e = Edns::new();
                 e.set_max_payload(adv as u16);
+                e.set_dnssec_ok(dnssec_ok);
                 adv_seen = e.max_payload() as i64;
                 q.edns = Some(e);
             }
@@ -244,7 +245,7 @@ async fn server_events(seed: u64, n: usize, trace: &mut dyn io::Write) {
                 "{}",
                 json!({"ev":"srv","case":format!("srv-s{seed}-{case}"),"proto": if proto == Protocol::Udp {"udp"} else {"tcp"},
                     "adv":adv_seen,"replies":replies.len(),"len":len,"decoded":decoded,"leftover":leftover,"tc":tc,
-                    "answers":an,"zone_records":nrec})
+                    "answers":an,"zone_records":nrec,"do":dnssec_ok})
             )
             .unwrap();
         }
